@@ -287,4 +287,425 @@ theorem step_duplicate_in_document (cfg : Cfg)
   rw [hsame _ (mapNode tW lW cW []), hsame _ (mapNode tW lW cW [])]
   exact e4
 
+/-! ### whatever happens inside one job, at the level of the whole file -/
+
+/-- the shape of a workflow file with one distinguished job -/
+def docWithJob (tW tJ : String) (lW cW lJ cJ : Nat) (preW postW preJ postJ : List (Node × Node)) (kJobs kJob : Node)
+    (job : Node) : Node :=
+  docNode (mapNode tW lW cW (preW ++ (kJobs, mapNode tJ lJ cJ (preJ ++ (kJob, job) :: postJ)) :: postW))
+
+theorem job_ext_in_document (cfg : Cfg) (tW tJ : String) (lW cW lJ cJ : Nat)
+    (preW postW preJ postJ : List (Node × Node)) (kJobs kJob job job' : Node) (es : List PErr)
+    (hJobs : GoodKey kJobs) (hJobsV : kJobs.value = "jobs") (hJobsFirst : ∀ q ∈ preW, keyId cfg true q.1 ≠ "jobs")
+    (hJobFirst : ∀ q ∈ preJ, keyId cfg false q.1 ≠ keyId cfg false kJob)
+    (h : Ext (parseJob cfg (parseString kJob false).1) job job' es) :
+    (parse cfg (docWithJob tW tJ lW cW lJ cJ preW postW preJ postJ kJobs kJob job')).1 =
+      (parse cfg (docWithJob tW tJ lW cW lJ cJ preW postW preJ postJ kJobs kJob job)).1 ∧
+    (parse cfg (docWithJob tW tJ lW cW lJ cJ preW postW preJ postJ kJobs kJob job')).2.Perm
+      (es ++ (parse cfg (docWithJob tW tJ lW cW lJ cJ preW postW preJ postJ kJobs kJob job)).2) := by
+  have e3 := parseJobs_ext cfg tJ lJ cJ preJ postJ kJob _ _ _ hJobFirst h
+  have hdoc : ∀ root, parse cfg (docNode root) = (workflowSect cfg (docNode root)).run cfg "workflow" root false true :=
+    fun root => parse_eq_run cfg (docNode root) root [] rfl
+  have e4 := parse_jobs_ext cfg (docNode (mapNode tW lW cW [])) tW lW cW preW postW kJobs _ _ _ hJobs hJobsV hJobsFirst e3
+  have hsame : ∀ r1 r2 root, (workflowSect cfg (docNode r1)).run cfg "workflow" root false true =
+      (workflowSect cfg (docNode r2)).run cfg "workflow" root false true := fun _ _ _ => rfl
+  simp only [docWithJob, hdoc]
+  rw [hsame _ (mapNode tW lW cW []), hsame _ (mapNode tW lW cW [])]
+  exact e4
+
+/-- a job — the value of one of its keys replaced by an `Ext` value, as long as `jobKey` passes that on -/
+theorem parseJob_value_ext (cfg : Cfg) (id : Str) (tag : String) (l c : Nat) (pre post : List (Node × Node)) (kn v v' : Node)
+    (es : List PErr) (hk : GoodKey kn) (hfirst : ∀ q ∈ pre, keyId cfg true q.1 ≠ kn.value)
+    (h : ∀ s, (jobKey cfg s ⟨kn.value, (parseString kn false).1, v'⟩).1 = (jobKey cfg s ⟨kn.value, (parseString kn false).1, v⟩).1 ∧
+      (jobKey cfg s ⟨kn.value, (parseString kn false).1, v'⟩).2.Perm (es ++ (jobKey cfg s ⟨kn.value, (parseString kn false).1, v⟩).2)) :
+    Ext (parseJob cfg id) (mapNode tag l c (pre ++ (kn, v) :: post)) (mapNode tag l c (pre ++ (kn, v') :: post)) es := by
+  have hid : keyId cfg true kn = kn.value := keyId_cs cfg kn hk
+  exact Sect.value_ext (jobSect cfg id) cfg (jobWhat id.value) tag l c false true pre post kn v v' es
+    (by intro s; simp only [hid, jobSect]; exact h s)
+    (by intro q hq; rw [hid]; exact hfirst q hq)
+
+/-- the hypotheses that place a sub-section under a key of a job -/
+structure AtJobKey (cfg : Cfg) (name : String) (pre : List (Node × Node)) (kn : Node) : Prop where
+  good : GoodKey kn
+  value : kn.value = name
+  first : ∀ q ∈ pre, keyId cfg true q.1 ≠ name
+
+theorem parseJob_container_ext (cfg : Cfg) (id : Str) (tag : String) (l c : Nat) (pre post : List (Node × Node)) (kn v v' : Node)
+    (es : List PErr) (hk : AtJobKey cfg "container" pre kn)
+    (h : Ext (parseContainer cfg "container" (parseString kn false).1.pos) v v' es) :
+    Ext (parseJob cfg id) (mapNode tag l c (pre ++ (kn, v) :: post)) (mapNode tag l c (pre ++ (kn, v') :: post)) es :=
+  parseJob_value_ext cfg id tag l c pre post kn v v' es hk.good (by rw [hk.value]; exact hk.first)
+    (by intro s; simp only [jobKey, hk.value, h.1]; exact ⟨trivial, h.2⟩)
+
+theorem parseJob_strategy_ext (cfg : Cfg) (id : Str) (tag : String) (l c : Nat) (pre post : List (Node × Node)) (kn v v' : Node)
+    (es : List PErr) (hk : AtJobKey cfg "strategy" pre kn)
+    (h : Ext (parseStrategy cfg (parseString kn false).1.pos) v v' es) :
+    Ext (parseJob cfg id) (mapNode tag l c (pre ++ (kn, v) :: post)) (mapNode tag l c (pre ++ (kn, v') :: post)) es :=
+  parseJob_value_ext cfg id tag l c pre post kn v v' es hk.good (by rw [hk.value]; exact hk.first)
+    (by intro s; simp only [jobKey, hk.value, h.1]; exact ⟨trivial, h.2⟩)
+
+theorem parseJob_concurrency_ext (cfg : Cfg) (id : Str) (tag : String) (l c : Nat) (pre post : List (Node × Node)) (kn v v' : Node)
+    (es : List PErr) (hk : AtJobKey cfg "concurrency" pre kn)
+    (h : Ext (parseConcurrency cfg (parseString kn false).1.pos) v v' es) :
+    Ext (parseJob cfg id) (mapNode tag l c (pre ++ (kn, v) :: post)) (mapNode tag l c (pre ++ (kn, v') :: post)) es :=
+  parseJob_value_ext cfg id tag l c pre post kn v v' es hk.good (by rw [hk.value]; exact hk.first)
+    (by intro s; simp only [jobKey, hk.value, h.1]; exact ⟨trivial, h.2⟩)
+
+theorem parseJob_environment_ext (cfg : Cfg) (id : Str) (tag : String) (l c : Nat) (pre post : List (Node × Node)) (kn v v' : Node)
+    (es : List PErr) (hk : AtJobKey cfg "environment" pre kn)
+    (h : Ext (parseEnvironment cfg (parseString kn false).1.pos) v v' es) :
+    Ext (parseJob cfg id) (mapNode tag l c (pre ++ (kn, v) :: post)) (mapNode tag l c (pre ++ (kn, v') :: post)) es :=
+  parseJob_value_ext cfg id tag l c pre post kn v v' es hk.good (by rw [hk.value]; exact hk.first)
+    (by intro s; simp only [jobKey, hk.value, h.1]; exact ⟨trivial, h.2⟩)
+
+theorem parseJob_runsOn_ext (cfg : Cfg) (id : Str) (tag : String) (l c : Nat) (pre post : List (Node × Node)) (kn v v' : Node)
+    (es : List PErr) (hk : AtJobKey cfg "runs-on" pre kn)
+    (h : Ext (parseRunsOn cfg) v v' es) :
+    Ext (parseJob cfg id) (mapNode tag l c (pre ++ (kn, v) :: post)) (mapNode tag l c (pre ++ (kn, v') :: post)) es :=
+  parseJob_value_ext cfg id tag l c pre post kn v v' es hk.good (by rw [hk.value]; exact hk.first)
+    (by intro s; simp only [jobKey, hk.value, h.1]; exact ⟨trivial, h.2⟩)
+
+theorem parseJob_defaults_ext (cfg : Cfg) (id : Str) (tag : String) (l c : Nat) (pre post : List (Node × Node)) (kn v v' : Node)
+    (es : List PErr) (hk : AtJobKey cfg "defaults" pre kn)
+    (h : Ext (parseDefaults cfg (parseString kn false).1.pos) v v' es) :
+    Ext (parseJob cfg id) (mapNode tag l c (pre ++ (kn, v) :: post)) (mapNode tag l c (pre ++ (kn, v') :: post)) es :=
+  parseJob_value_ext cfg id tag l c pre post kn v v' es hk.good (by rw [hk.value]; exact hk.first)
+    (by intro s; simp only [jobKey, hk.value, h.1]; exact ⟨trivial, h.2⟩)
+
+/-- `defaults:` — the value of its `run:` key replaced. The final check of `parseDefaults` ("no run") is positioned at the
+`defaults` node itself, whose line and column are the same for both mappings -/
+theorem parseDefaults_run_ext (cfg : Cfg) (pos : Pos) (tag : String) (l c : Nat) (pre post : List (Node × Node)) (kn v v' : Node)
+    (es : List PErr) (hk : AtJobKey cfg "run" pre kn)
+    (h : Ext (fun n => (plain defaultsRunKey { pos := (parseString kn false).1.pos }).run cfg (sectionWhat "run") n false true) v v' es) :
+    Ext (parseDefaults cfg pos) (mapNode tag l c (pre ++ (kn, v) :: post)) (mapNode tag l c (pre ++ (kn, v') :: post)) es := by
+  have hid : keyId cfg true kn = "run" := by rw [keyId_cs cfg kn hk.good, hk.value]
+  have := Sect.value_ext (defaultsSect cfg pos (mapNode tag l c [])) cfg (sectionWhat "defaults") tag l c false true pre post kn v v' es
+    (by
+      intro s
+      have h1 := h.1
+      have h2 := h.2
+      simp only [plain_run] at h1 h2
+      simp only [hid, defaultsSect, defaultsStep, parseSectionMapping, ne_eq, not_true_eq_false, if_false]
+      exact ⟨by rw [h1], h2⟩)
+    (by intro q hq; rw [hid]; exact hk.first q hq)
+  have e : ∀ ps, parseDefaults cfg pos (mapNode tag l c ps) =
+      (defaultsSect cfg pos (mapNode tag l c [])).run cfg (sectionWhat "defaults") (mapNode tag l c ps) false true := fun _ => rfl
+  simp only [Ext, e]
+  exact this
+
+/-! ### the same for the keys of the workflow itself -/
+
+/-- the shape of a workflow file with one distinguished top-level key -/
+def docWithKey (tW : String) (lW cW : Nat) (preW postW : List (Node × Node)) (kn v : Node) : Node :=
+  docNode (mapNode tW lW cW (preW ++ (kn, v) :: postW))
+
+theorem workflow_value_ext_in_document (cfg : Cfg) (tW : String) (lW cW : Nat) (preW postW : List (Node × Node)) (kn v v' : Node)
+    (es : List PErr) (hk : GoodKey kn) (hfirst : ∀ q ∈ preW, keyId cfg true q.1 ≠ kn.value)
+    (h : ∀ s, (workflowKey cfg s ⟨kn.value, (parseString kn false).1, v'⟩).1 = (workflowKey cfg s ⟨kn.value, (parseString kn false).1, v⟩).1 ∧
+      (workflowKey cfg s ⟨kn.value, (parseString kn false).1, v'⟩).2.Perm (es ++ (workflowKey cfg s ⟨kn.value, (parseString kn false).1, v⟩).2)) :
+    (parse cfg (docWithKey tW lW cW preW postW kn v')).1 = (parse cfg (docWithKey tW lW cW preW postW kn v)).1 ∧
+    (parse cfg (docWithKey tW lW cW preW postW kn v')).2.Perm (es ++ (parse cfg (docWithKey tW lW cW preW postW kn v)).2) := by
+  have hid : keyId cfg true kn = kn.value := keyId_cs cfg kn hk
+  have e4 := Sect.value_ext (workflowSect cfg (docNode (mapNode tW lW cW []))) cfg "workflow" tW lW cW false true preW postW kn v v' es
+    (by intro s; simp only [hid, workflowSect]; exact h s)
+    (by intro q hq; rw [hid]; exact hfirst q hq)
+  have hdoc : ∀ root, parse cfg (docNode root) = (workflowSect cfg (docNode root)).run cfg "workflow" root false true :=
+    fun root => parse_eq_run cfg (docNode root) root [] rfl
+  have hsame : ∀ r1 r2 root, (workflowSect cfg (docNode r1)).run cfg "workflow" root false true =
+      (workflowSect cfg (docNode r2)).run cfg "workflow" root false true := fun _ _ _ => rfl
+  simp only [docWithKey, hdoc]
+  rw [hsame _ (mapNode tW lW cW []), hsame _ (mapNode tW lW cW [])]
+  exact e4
+
+/-! ### unknown keys in the sub-sections of a job and of the workflow, at the level of the whole file -/
+
+/-- `doc'` parses to the same AST as `doc` with exactly the one diagnostic `e` more -/
+def AddsExactly (cfg : Cfg) (doc doc' : Node) (e : PErr) : Prop :=
+  (parse cfg doc').1 = (parse cfg doc).1 ∧ (parse cfg doc').2.Perm (e :: (parse cfg doc).2)
+
+section
+variable (cfg : Cfg) (tW tJ tK tP tR : String) (lW cW lJ cJ lK cK lP cP lR cR : Nat)
+  (preW postW preJ postJ preK postK preR postR pre post : List (Node × Node)) (kJobs kJob kSec kRun kn vn : Node)
+
+/-- the file: workflow → jobs → job → `kSec:` → a node -/
+def docWithJobSection (sec : Node) : Node :=
+  docWithJob tW tJ lW cW lJ cJ preW postW preJ postJ kJobs kJob (mapNode tK lK cK (preK ++ (kSec, sec) :: postK))
+
+/-- the hypotheses that fix the path workflow → `jobs:` → one job -/
+structure JobPath : Prop where
+  jobs : GoodKey kJobs
+  jobsV : kJobs.value = "jobs"
+  jobsFirst : ∀ q ∈ preW, keyId cfg true q.1 ≠ "jobs"
+  jobFirst : ∀ q ∈ preJ, keyId cfg false q.1 ≠ keyId cfg false kJob
+
+/-- **C13 for `container:` of a job, whole file**: an unknown key inserted anywhere into the container mapping of any job
+leaves the whole AST unchanged and adds exactly its own diagnostic to those of the whole file -/
+theorem container_unknown_in_document (hp : JobPath cfg preW preJ kJobs kJob)
+    (hSec : AtJobKey cfg "container" preK kSec) (hF : Foreign cfg containerKeys pre post kn) :
+    AddsExactly cfg
+      (docWithJobSection tW tJ tK lW cW lJ cJ lK cK preW postW preJ postJ preK postK kJobs kJob kSec (mapNode tP lP cP (pre ++ post)))
+      (docWithJobSection tW tJ tK lW cW lJ cJ lK cK preW postW preJ postJ preK postK kJobs kJob kSec (mapNode tP lP cP (pre ++ (kn, vn) :: post)))
+      (unexpectedAt kn "container" containerKeys) := by
+  have e0 : Ext (parseContainer cfg "container" (parseString kSec false).1.pos) (mapNode tP lP cP (pre ++ post))
+      (mapNode tP lP cP (pre ++ (kn, vn) :: post)) [unexpectedAt kn "container" containerKeys] :=
+    container_unknown cfg tP lP cP pre post kn vn "container" _ hF
+  have e1 := parseJob_container_ext cfg (parseString kJob false).1 tK lK cK preK postK kSec _ _ _ hSec e0
+  exact job_ext_in_document cfg tW tJ lW cW lJ cJ preW postW preJ postJ kJobs kJob _ _ _ hp.jobs hp.jobsV hp.jobsFirst hp.jobFirst e1
+
+theorem strategy_unknown_in_document (hp : JobPath cfg preW preJ kJobs kJob)
+    (hSec : AtJobKey cfg "strategy" preK kSec) (hF : Foreign cfg ["matrix", "fail-fast", "max-parallel"] pre post kn) :
+    AddsExactly cfg
+      (docWithJobSection tW tJ tK lW cW lJ cJ lK cK preW postW preJ postJ preK postK kJobs kJob kSec (mapNode tP lP cP (pre ++ post)))
+      (docWithJobSection tW tJ tK lW cW lJ cJ lK cK preW postW preJ postJ preK postK kJobs kJob kSec (mapNode tP lP cP (pre ++ (kn, vn) :: post)))
+      (unexpectedAt kn "strategy" ["matrix", "fail-fast", "max-parallel"]) := by
+  have e0 : Ext (parseStrategy cfg (parseString kSec false).1.pos) (mapNode tP lP cP (pre ++ post))
+      (mapNode tP lP cP (pre ++ (kn, vn) :: post)) [_] := strategy_unknown cfg tP lP cP pre post kn vn _ hF
+  have e1 := parseJob_strategy_ext cfg (parseString kJob false).1 tK lK cK preK postK kSec _ _ _ hSec e0
+  exact job_ext_in_document cfg tW tJ lW cW lJ cJ preW postW preJ postJ kJobs kJob _ _ _ hp.jobs hp.jobsV hp.jobsFirst hp.jobFirst e1
+
+theorem job_concurrency_unknown_in_document (hp : JobPath cfg preW preJ kJobs kJob)
+    (hSec : AtJobKey cfg "concurrency" preK kSec) (hF : Foreign cfg ["group", "cancel-in-progress"] pre post kn) :
+    AddsExactly cfg
+      (docWithJobSection tW tJ tK lW cW lJ cJ lK cK preW postW preJ postJ preK postK kJobs kJob kSec (mapNode tP lP cP (pre ++ post)))
+      (docWithJobSection tW tJ tK lW cW lJ cJ lK cK preW postW preJ postJ preK postK kJobs kJob kSec (mapNode tP lP cP (pre ++ (kn, vn) :: post)))
+      (unexpectedAt kn "concurrency" ["group", "cancel-in-progress"]) := by
+  have e0 : Ext (parseConcurrency cfg (parseString kSec false).1.pos) (mapNode tP lP cP (pre ++ post))
+      (mapNode tP lP cP (pre ++ (kn, vn) :: post)) [_] := concurrency_unknown cfg tP lP cP pre post kn vn _ hF
+  have e1 := parseJob_concurrency_ext cfg (parseString kJob false).1 tK lK cK preK postK kSec _ _ _ hSec e0
+  exact job_ext_in_document cfg tW tJ lW cW lJ cJ preW postW preJ postJ kJobs kJob _ _ _ hp.jobs hp.jobsV hp.jobsFirst hp.jobFirst e1
+
+theorem environment_unknown_in_document (hp : JobPath cfg preW preJ kJobs kJob)
+    (hSec : AtJobKey cfg "environment" preK kSec) (hF : Foreign cfg ["name", "url"] pre post kn) :
+    AddsExactly cfg
+      (docWithJobSection tW tJ tK lW cW lJ cJ lK cK preW postW preJ postJ preK postK kJobs kJob kSec (mapNode tP lP cP (pre ++ post)))
+      (docWithJobSection tW tJ tK lW cW lJ cJ lK cK preW postW preJ postJ preK postK kJobs kJob kSec (mapNode tP lP cP (pre ++ (kn, vn) :: post)))
+      (unexpectedAt kn "environment" ["name", "url"]) := by
+  have e0 : Ext (parseEnvironment cfg (parseString kSec false).1.pos) (mapNode tP lP cP (pre ++ post))
+      (mapNode tP lP cP (pre ++ (kn, vn) :: post)) [_] := environment_unknown cfg tP lP cP pre post kn vn _ hF
+  have e1 := parseJob_environment_ext cfg (parseString kJob false).1 tK lK cK preK postK kSec _ _ _ hSec e0
+  exact job_ext_in_document cfg tW tJ lW cW lJ cJ preW postW preJ postJ kJobs kJob _ _ _ hp.jobs hp.jobsV hp.jobsFirst hp.jobFirst e1
+
+theorem runsOn_unknown_in_document (hp : JobPath cfg preW preJ kJobs kJob)
+    (hSec : AtJobKey cfg "runs-on" preK kSec) (hF : Foreign cfg ["labels", "group"] pre post kn) :
+    AddsExactly cfg
+      (docWithJobSection tW tJ tK lW cW lJ cJ lK cK preW postW preJ postJ preK postK kJobs kJob kSec (mapNode "!!map" lP cP (pre ++ post)))
+      (docWithJobSection tW tJ tK lW cW lJ cJ lK cK preW postW preJ postJ preK postK kJobs kJob kSec (mapNode "!!map" lP cP (pre ++ (kn, vn) :: post)))
+      (unexpectedAt kn "runs-on" ["labels", "group"]) := by
+  have e0 : Ext (parseRunsOn cfg) (mapNode "!!map" lP cP (pre ++ post))
+      (mapNode "!!map" lP cP (pre ++ (kn, vn) :: post)) [_] := runsOn_unknown cfg lP cP pre post kn vn hF
+  have e1 := parseJob_runsOn_ext cfg (parseString kJob false).1 tK lK cK preK postK kSec _ _ _ hSec e0
+  exact job_ext_in_document cfg tW tJ lW cW lJ cJ preW postW preJ postJ kJobs kJob _ _ _ hp.jobs hp.jobsV hp.jobsFirst hp.jobFirst e1
+
+/-- `jobs.<id>.defaults.run`: four levels below the root -/
+theorem job_defaults_run_unknown_in_document (hp : JobPath cfg preW preJ kJobs kJob)
+    (hSec : AtJobKey cfg "defaults" preK kSec) (hRun : AtJobKey cfg "run" preR kRun)
+    (hF : Foreign cfg ["shell", "working-directory"] pre post kn) :
+    AddsExactly cfg
+      (docWithJobSection tW tJ tK lW cW lJ cJ lK cK preW postW preJ postJ preK postK kJobs kJob kSec
+        (mapNode tR lR cR (preR ++ (kRun, mapNode tP lP cP (pre ++ post)) :: postR)))
+      (docWithJobSection tW tJ tK lW cW lJ cJ lK cK preW postW preJ postJ preK postK kJobs kJob kSec
+        (mapNode tR lR cR (preR ++ (kRun, mapNode tP lP cP (pre ++ (kn, vn) :: post)) :: postR)))
+      (unexpectedAt kn "run" ["shell", "working-directory"]) := by
+  have e0 : Ext (fun n => (plain defaultsRunKey { pos := (parseString kRun false).1.pos }).run cfg (sectionWhat "run") n false true)
+      (mapNode tP lP cP (pre ++ post)) (mapNode tP lP cP (pre ++ (kn, vn) :: post)) [_] :=
+    defaultsRun_unknown cfg tP lP cP pre post kn vn _ hF
+  have e1 := parseDefaults_run_ext cfg (parseString kSec false).1.pos tR lR cR preR postR kRun _ _ _ hRun e0
+  have e2 := parseJob_defaults_ext cfg (parseString kJob false).1 tK lK cK preK postK kSec _ _ _ hSec e1
+  exact job_ext_in_document cfg tW tJ lW cW lJ cJ preW postW preJ postJ kJobs kJob _ _ _ hp.jobs hp.jobsV hp.jobsFirst hp.jobFirst e2
+
+/-- the workflow's own `concurrency:` -/
+theorem workflow_concurrency_unknown_in_document (hk : AtJobKey cfg "concurrency" preW kSec)
+    (hF : Foreign cfg ["group", "cancel-in-progress"] pre post kn) :
+    AddsExactly cfg (docWithKey tW lW cW preW postW kSec (mapNode tP lP cP (pre ++ post)))
+      (docWithKey tW lW cW preW postW kSec (mapNode tP lP cP (pre ++ (kn, vn) :: post)))
+      (unexpectedAt kn "concurrency" ["group", "cancel-in-progress"]) := by
+  have e0 : Ext (parseConcurrency cfg (parseString kSec false).1.pos) (mapNode tP lP cP (pre ++ post))
+      (mapNode tP lP cP (pre ++ (kn, vn) :: post)) [_] := concurrency_unknown cfg tP lP cP pre post kn vn _ hF
+  exact workflow_value_ext_in_document cfg tW lW cW preW postW kSec (mapNode tP lP cP (pre ++ post))
+    (mapNode tP lP cP (pre ++ (kn, vn) :: post)) [_] hk.good (by rw [hk.value]; exact hk.first)
+    (by intro s; simp only [workflowKey, hk.value, e0.1]; exact ⟨trivial, e0.2⟩)
+
+/-- the workflow's own `defaults.run` -/
+theorem workflow_defaults_run_unknown_in_document (hk : AtJobKey cfg "defaults" preW kSec) (hRun : AtJobKey cfg "run" preR kRun)
+    (hF : Foreign cfg ["shell", "working-directory"] pre post kn) :
+    AddsExactly cfg
+      (docWithKey tW lW cW preW postW kSec (mapNode tR lR cR (preR ++ (kRun, mapNode tP lP cP (pre ++ post)) :: postR)))
+      (docWithKey tW lW cW preW postW kSec (mapNode tR lR cR (preR ++ (kRun, mapNode tP lP cP (pre ++ (kn, vn) :: post)) :: postR)))
+      (unexpectedAt kn "run" ["shell", "working-directory"]) := by
+  have e0 : Ext (fun n => (plain defaultsRunKey { pos := (parseString kRun false).1.pos }).run cfg (sectionWhat "run") n false true)
+      (mapNode tP lP cP (pre ++ post)) (mapNode tP lP cP (pre ++ (kn, vn) :: post)) [_] :=
+    defaultsRun_unknown cfg tP lP cP pre post kn vn _ hF
+  have e1 := parseDefaults_run_ext cfg (parseString kSec false).1.pos tR lR cR preR postR kRun _ _ _ hRun e0
+  exact workflow_value_ext_in_document cfg tW lW cW preW postW kSec
+    (mapNode tR lR cR (preR ++ (kRun, mapNode tP lP cP (pre ++ post)) :: postR))
+    (mapNode tR lR cR (preR ++ (kRun, mapNode tP lP cP (pre ++ (kn, vn) :: post)) :: postR)) [_]
+    hk.good (by rw [hk.value]; exact hk.first)
+    (by intro s; simp only [workflowKey, hk.value, e1.1]; exact ⟨trivial, e1.2⟩)
+
+end
+/-! ### `on:` → one event -/
+
+theorem parseEvents_mapNode (cfg : Cfg) (pos : Pos) (tag : String) (l c : Nat) (ps : List (Node × Node)) :
+    parseEvents cfg pos (mapNode tag l c ps) =
+      (some ((plain (eventOfKey cfg) []).run cfg (sectionWhat "on") (mapNode tag l c ps) false true).1,
+       ((plain (eventOfKey cfg) []).run cfg (sectionWhat "on") (mapNode tag l c ps) false true).2) := by
+  simp [parseEvents, mapNode, Node.kind, plain_run, parseSectionMapping]
+
+/-- `on:` (a mapping) — the value of one event replaced -/
+theorem parseEvents_value_ext (cfg : Cfg) (pos : Pos) (tag : String) (l c : Nat) (pre post : List (Node × Node)) (kn v v' : Node)
+    (es : List PErr) (hk : GoodKey kn) (hfirst : ∀ q ∈ pre, keyId cfg true q.1 ≠ kn.value)
+    (h : ∀ s, (eventOfKey cfg s ⟨kn.value, (parseString kn false).1, v'⟩).1 = (eventOfKey cfg s ⟨kn.value, (parseString kn false).1, v⟩).1 ∧
+      (eventOfKey cfg s ⟨kn.value, (parseString kn false).1, v'⟩).2.Perm (es ++ (eventOfKey cfg s ⟨kn.value, (parseString kn false).1, v⟩).2)) :
+    Ext (parseEvents cfg pos) (mapNode tag l c (pre ++ (kn, v) :: post)) (mapNode tag l c (pre ++ (kn, v') :: post)) es := by
+  have hid : keyId cfg true kn = kn.value := keyId_cs cfg kn hk
+  have := Sect.value_ext (plain (eventOfKey cfg) []) cfg (sectionWhat "on") tag l c false true pre post kn v v' es
+    (by intro s; simp only [hid, plain]; exact h s)
+    (by intro q hq; rw [hid]; exact hfirst q hq)
+  simp only [Ext, parseEvents_mapNode]
+  exact ⟨by rw [this.1], this.2⟩
+
+section
+variable (cfg : Cfg) (tW tO tP : String) (lW cW lO cO lP cP : Nat)
+  (preW postW preO postO pre post : List (Node × Node)) (kOn kEv kn vn : Node)
+
+/-- the file: workflow → `on:` → `kEv:` → a node -/
+def docWithEvent (ev : Node) : Node :=
+  docWithKey tW lW cW preW postW kOn (mapNode tO lO cO (preO ++ (kEv, ev) :: postO))
+
+theorem event_ext_in_document (hOn : AtJobKey cfg "on" preW kOn) (hEv : GoodKey kEv)
+    (hEvFirst : ∀ q ∈ preO, keyId cfg true q.1 ≠ kEv.value) (ev ev' : Node) (es : List PErr)
+    (h : ∀ s, (eventOfKey cfg s ⟨kEv.value, (parseString kEv false).1, ev'⟩).1 = (eventOfKey cfg s ⟨kEv.value, (parseString kEv false).1, ev⟩).1 ∧
+      (eventOfKey cfg s ⟨kEv.value, (parseString kEv false).1, ev'⟩).2.Perm (es ++ (eventOfKey cfg s ⟨kEv.value, (parseString kEv false).1, ev⟩).2)) :
+    (parse cfg (docWithEvent tW tO lW cW lO cO preW postW preO postO kOn kEv ev')).1 =
+      (parse cfg (docWithEvent tW tO lW cW lO cO preW postW preO postO kOn kEv ev)).1 ∧
+    (parse cfg (docWithEvent tW tO lW cW lO cO preW postW preO postO kOn kEv ev')).2.Perm
+      (es ++ (parse cfg (docWithEvent tW tO lW cW lO cO preW postW preO postO kOn kEv ev)).2) := by
+  have e1 := parseEvents_value_ext cfg (parseString kOn false).1.pos tO lO cO preO postO kEv ev ev' es hEv hEvFirst h
+  exact workflow_value_ext_in_document cfg tW lW cW preW postW kOn
+    (mapNode tO lO cO (preO ++ (kEv, ev) :: postO)) (mapNode tO lO cO (preO ++ (kEv, ev') :: postO)) es
+    hOn.good (by rw [hOn.value]; exact hOn.first)
+    (by intro s; simp only [workflowKey, hOn.value, e1.1]; exact ⟨trivial, e1.2⟩)
+
+/-- **a webhook event (`push:`, `pull_request:`, …), whole file**: an unknown key inserted anywhere into the event's mapping
+leaves the whole AST unchanged and adds exactly its own diagnostic -/
+theorem webhook_unknown_in_document (hOn : AtJobKey cfg "on" preW kOn) (hEv : GoodKey kEv)
+    (hEvFirst : ∀ q ∈ preO, keyId cfg true q.1 ≠ kEv.value)
+    (hWeb : kEv.value ∉ ["schedule", "workflow_dispatch", "repository_dispatch", "workflow_call"])
+    (hF : Foreign cfg webhookKeys pre post kn) :
+    AddsExactly cfg (docWithEvent tW tO lW cW lO cO preW postW preO postO kOn kEv (mapNode tP lP cP (pre ++ post)))
+      (docWithEvent tW tO lW cW lO cO preW postW preO postO kOn kEv (mapNode tP lP cP (pre ++ (kn, vn) :: post)))
+      (unexpectedAt kn kEv.value webhookKeys) := by
+  have e0 : Ext (parseWebhookEvent cfg (parseString kEv false).1) (mapNode tP lP cP (pre ++ post))
+      (mapNode tP lP cP (pre ++ (kn, vn) :: post)) [unexpectedAt kn (parseString kEv false).1.value webhookKeys] :=
+    webhook_unknown cfg tP lP cP pre post kn vn _ hF
+  have hval : (parseString kEv false).1.value = kEv.value := by
+    have := keyId_cs cfg kEv hEv
+    simpa [keyId] using this
+  rw [hval] at e0
+  simp only [List.mem_cons, List.not_mem_nil, or_false, not_or] at hWeb
+  obtain ⟨w1, w2, w3, w4⟩ := hWeb
+  exact event_ext_in_document cfg tW tO lW cW lO cO preW postW preO postO kOn kEv hOn hEv hEvFirst
+    (mapNode tP lP cP (pre ++ post)) (mapNode tP lP cP (pre ++ (kn, vn) :: post)) [_]
+    (by intro s; simp only [eventOfKey, w1, w2, w3, w4, e0.1]; exact ⟨trivial, e0.2⟩)
+
+/-- `workflow_dispatch:` -/
+theorem dispatch_unknown_in_document (hOn : AtJobKey cfg "on" preW kOn) (hEv : AtJobKey cfg "workflow_dispatch" preO kEv)
+    (hF : Foreign cfg ["inputs"] pre post kn) :
+    AddsExactly cfg (docWithEvent tW tO lW cW lO cO preW postW preO postO kOn kEv (mapNode tP lP cP (pre ++ post)))
+      (docWithEvent tW tO lW cW lO cO preW postW preO postO kOn kEv (mapNode tP lP cP (pre ++ (kn, vn) :: post)))
+      (unexpectedAt kn "workflow_dispatch" ["inputs"]) := by
+  have e0 : Ext (parseWorkflowDispatchEvent cfg (parseString kEv false).1.pos) (mapNode tP lP cP (pre ++ post))
+      (mapNode tP lP cP (pre ++ (kn, vn) :: post)) [_] := dispatch_unknown cfg tP lP cP pre post kn vn _ hF
+  exact event_ext_in_document cfg tW tO lW cW lO cO preW postW preO postO kOn kEv hOn hEv.good
+    (by rw [hEv.value]; exact hEv.first) (mapNode tP lP cP (pre ++ post)) (mapNode tP lP cP (pre ++ (kn, vn) :: post)) [_]
+    (by intro s; simp only [eventOfKey, hEv.value, e0.1]; exact ⟨trivial, e0.2⟩)
+
+/-- `workflow_call:` -/
+theorem callEvent_unknown_in_document (hOn : AtJobKey cfg "on" preW kOn) (hEv : AtJobKey cfg "workflow_call" preO kEv)
+    (hF : Foreign cfg ["inputs", "secrets", "outputs"] pre post kn) :
+    AddsExactly cfg (docWithEvent tW tO lW cW lO cO preW postW preO postO kOn kEv (mapNode tP lP cP (pre ++ post)))
+      (docWithEvent tW tO lW cW lO cO preW postW preO postO kOn kEv (mapNode tP lP cP (pre ++ (kn, vn) :: post)))
+      (unexpectedAt kn "workflow_call" ["inputs", "secrets", "outputs"]) := by
+  have e0 : Ext (parseWorkflowCallEvent cfg (parseString kEv false).1.pos) (mapNode tP lP cP (pre ++ post))
+      (mapNode tP lP cP (pre ++ (kn, vn) :: post)) [_] := callEvent_unknown cfg tP lP cP pre post kn vn _ hF
+  exact event_ext_in_document cfg tW tO lW cW lO cO preW postW preO postO kOn kEv hOn hEv.good
+    (by rw [hEv.value]; exact hEv.first) (mapNode tP lP cP (pre ++ post)) (mapNode tP lP cP (pre ++ (kn, vn) :: post)) [_]
+    (by intro s; simp only [eventOfKey, hEv.value, e0.1]; exact ⟨trivial, e0.2⟩)
+
+/-- `repository_dispatch:` -/
+theorem repoDispatch_unknown_in_document (hOn : AtJobKey cfg "on" preW kOn) (hEv : AtJobKey cfg "repository_dispatch" preO kEv)
+    (hF : Foreign cfg ["types"] pre post kn) :
+    AddsExactly cfg (docWithEvent tW tO lW cW lO cO preW postW preO postO kOn kEv (mapNode tP lP cP (pre ++ post)))
+      (docWithEvent tW tO lW cW lO cO preW postW preO postO kOn kEv (mapNode tP lP cP (pre ++ (kn, vn) :: post)))
+      (unexpectedAt kn "repository_dispatch" ["types"]) := by
+  have e0 : Ext (parseRepositoryDispatchEvent cfg (parseString kEv false).1.pos) (mapNode tP lP cP (pre ++ post))
+      (mapNode tP lP cP (pre ++ (kn, vn) :: post)) [_] := repoDispatch_unknown cfg tP lP cP pre post kn vn _ hF
+  exact event_ext_in_document cfg tW tO lW cW lO cO preW postW preO postO kOn kEv hOn hEv.good
+    (by rw [hEv.value]; exact hEv.first) (mapNode tP lP cP (pre ++ post)) (mapNode tP lP cP (pre ++ (kn, vn) :: post)) [_]
+    (by intro s; simp only [eventOfKey, hEv.value, e0.1]; exact ⟨trivial, e0.2⟩)
+
+end
+/-! ### repeated keys, at the level of the whole file -/
+
+section
+variable (cfg : Cfg) (tW tJ tP : String) (lW cW lJ cJ lP cP : Nat)
+  (preW postW preJ postJ pre post : List (Node × Node)) (kJobs kJob kn vn : Node)
+
+/-- a key of a job written twice: exactly one `key-duplicated` diagnostic more, at the repetition, naming where the first
+one is; the whole AST unchanged -/
+theorem job_duplicate_in_document (hp : JobPath cfg preW preJ kJobs kJob) (hR : Repeated cfg true pre kn) :
+    ∃ pos, firstPos cfg true (keyId cfg true kn) pre = some pos ∧
+    AddsExactly cfg
+      (docWithJob tW tJ lW cW lJ cJ preW postW preJ postJ kJobs kJob (mapNode tP lP cP (pre ++ post)))
+      (docWithJob tW tJ lW cW lJ cJ preW postW preJ postJ kJobs kJob (mapNode tP lP cP (pre ++ (kn, vn) :: post)))
+      (dupAt kn (jobWhat (parseString kJob false).1.value) pos true) := by
+  obtain ⟨pos, hpos, hins⟩ := job_duplicate cfg tP lP cP pre post kn vn (parseString kJob false).1 hR
+  refine ⟨pos, hpos, ?_⟩
+  have e0 : Ext (parseJob cfg (parseString kJob false).1) (mapNode tP lP cP (pre ++ post))
+      (mapNode tP lP cP (pre ++ (kn, vn) :: post)) [dupAt kn (jobWhat (parseString kJob false).1.value) pos true] := hins
+  exact job_ext_in_document cfg tW tJ lW cW lJ cJ preW postW preJ postJ kJobs kJob _ _ _ hp.jobs hp.jobsV hp.jobsFirst hp.jobFirst e0
+
+/-- a job id written twice (up to letter case) under `jobs:`: the second job is reported and dropped, nothing else changes -/
+theorem jobs_duplicate_in_document (hJobs : AtJobKey cfg "jobs" preW kJobs) (hR : Repeated cfg false pre kn) :
+    ∃ pos, firstPos cfg false (keyId cfg false kn) pre = some pos ∧
+    AddsExactly cfg (docWithKey tW lW cW preW postW kJobs (mapNode tP lP cP (pre ++ post)))
+      (docWithKey tW lW cW preW postW kJobs (mapNode tP lP cP (pre ++ (kn, vn) :: post)))
+      (dupAt kn (sectionWhat "jobs") pos false) := by
+  obtain ⟨pos, hpos, hins⟩ := jobs_duplicate cfg tP lP cP pre post kn vn hR
+  refine ⟨pos, hpos, ?_⟩
+  have e0 : Ext (parseJobs cfg) (mapNode tP lP cP (pre ++ post)) (mapNode tP lP cP (pre ++ (kn, vn) :: post))
+      [dupAt kn (sectionWhat "jobs") pos false] := hins
+  exact workflow_value_ext_in_document cfg tW lW cW preW postW kJobs (mapNode tP lP cP (pre ++ post))
+    (mapNode tP lP cP (pre ++ (kn, vn) :: post)) [_] hJobs.good (by rw [hJobs.value]; exact hJobs.first)
+    (by intro s; simp only [workflowKey, hJobs.value, e0.1]; exact ⟨trivial, e0.2⟩)
+
+/-- a top-level key written twice -/
+theorem workflow_duplicate_in_document (hR : Repeated cfg true pre kn) :
+    ∃ pos, firstPos cfg true (keyId cfg true kn) pre = some pos ∧
+    AddsExactly cfg (docNode (mapNode tW lW cW (pre ++ post))) (docNode (mapNode tW lW cW (pre ++ (kn, vn) :: post)))
+      (dupAt kn "workflow" pos true) := by
+  obtain ⟨pos, hpos, hins⟩ := workflow_duplicate cfg tW lW cW pre post kn vn (docNode (mapNode tW lW cW [])) hR
+  refine ⟨pos, hpos, ?_⟩
+  have hdoc : ∀ root, parse cfg (docNode root) = (workflowSect cfg (docNode root)).run cfg "workflow" root false true :=
+    fun root => parse_eq_run cfg (docNode root) root [] rfl
+  have hsame : ∀ r1 r2 root, (workflowSect cfg (docNode r1)).run cfg "workflow" root false true =
+      (workflowSect cfg (docNode r2)).run cfg "workflow" root false true := fun _ _ _ => rfl
+  simp only [AddsExactly, hdoc]
+  rw [hsame _ (mapNode tW lW cW []), hsame _ (mapNode tW lW cW [])]
+  exact hins
+
+/-- an unknown top-level key -/
+theorem workflow_unknown_in_document (hF : Foreign cfg workflowKeys pre post kn) :
+    AddsExactly cfg (docNode (mapNode tW lW cW (pre ++ post))) (docNode (mapNode tW lW cW (pre ++ (kn, vn) :: post)))
+      (unexpectedAt kn "workflow" workflowKeys) := by
+  have hins := workflow_unknown cfg tW lW cW pre post kn vn (docNode (mapNode tW lW cW [])) hF
+  have hdoc : ∀ root, parse cfg (docNode root) = (workflowSect cfg (docNode root)).run cfg "workflow" root false true :=
+    fun root => parse_eq_run cfg (docNode root) root [] rfl
+  have hsame : ∀ r1 r2 root, (workflowSect cfg (docNode r1)).run cfg "workflow" root false true =
+      (workflowSect cfg (docNode r2)).run cfg "workflow" root false true := fun _ _ _ => rfl
+  simp only [AddsExactly, hdoc]
+  rw [hsame _ (mapNode tW lW cW []), hsame _ (mapNode tW lW cW [])]
+  exact hins
+
+end
 end AL.C13D
